@@ -1,11 +1,20 @@
 #!/bin/bash
-# Runs every registered quick (or thorough) check once at the given seed and prints one line per check.
+# Runs every registered quick (or thorough) check once at the current VERIF_SEED and prints one line
+# per check. With SNAPSHOT=1 the harness is built once and a private copy of the binary is used, so
+# that sources may be edited while a long campaign runs.
 # usage: tools/run_all.sh [quick|thorough]
 cd /verif
 TIER=${1:-quick}
+RUN="./check"
+if [ "${SNAPSHOT:-0}" = "1" ]; then
+  (cd /verif/sim && CARGO_NET_OFFLINE=true cargo build --release --offline >/dev/null 2>&1) || { echo "build failed"; exit 2; }
+  mkdir -p /verif/target/snapshot && cp /verif/target/release/verif-sim /verif/target/snapshot/verif-sim-$$
+  RUN="/verif/target/snapshot/verif-sim-$$ check"
+fi
 for id in $(python3 -c "import json; print(' '.join(c['property_id'] for c in json.load(open('MANIFEST.json'))['checks']))"); do
   s=$(date +%s)
-  out=$(./check $id --tier $TIER 2>&1); rc=$?
+  out=$($RUN $id --tier $TIER 2>&1); rc=$?
   echo "$id rc=$rc $(($(date +%s)-s))s $(echo "$out" | grep -E '^summary' | tail -1)"
-  echo "$out" | grep -E "^VIOLATION|^HARNESS" | head -3
+  echo "$out" | grep -E "^VIOLATION|^HARNESS|what:" | head -4 | cut -c1-300
 done
+[ "${SNAPSHOT:-0}" = "1" ] && rm -f /verif/target/snapshot/verif-sim-$$
